@@ -1,7 +1,7 @@
 #!/bin/bash
-# usage: try_mx.sh <seed-id>[:<check>,<check>..] ...   - like try_patch.sh but in the isolated copy /tmp/mx
+# usage: try_mx.sh <seed-id>[:<check>,<check>..] ...   - like try_patch.sh but in the isolated copy ${MX:-/tmp/mx}
 # (run tools/mx_sync.sh first); default check = the property the seed aims at.
-REPO=/tmp/mx/repo; VERIF=/tmp/mx/verif
+REPO=${MX:-/tmp/mx}/repo; VERIF=${MX:-/tmp/mx}/verif
 mkdir -p /tmp/scratch/vout-mx
 for spec in "$@"; do
   id=${spec%%:*}; checks=${spec#*:}; [ "$checks" = "$spec" ] && checks=${id%-*}
